@@ -102,6 +102,14 @@ type Frame struct {
 	inLoopOf  map[*ssa.BasicBlock][]*loopInfo
 	closures  map[string]*closureInfo
 	frameMS   *modSet // targets of the function's modifies clause (top frame only)
+	dctx      *deferCtx // set while deferred calls run
+}
+
+// deferCtx is the panic state seen by deferred calls.
+type deferCtx struct {
+	panicking bool
+	pv        Term
+	recovered bool
 }
 
 const maxInlineDepth = 4
